@@ -214,6 +214,7 @@ def main(tier, replay=None):
     ob = check_obligations('C16')
     proof_coverage(chk, ob, 'make -f Makefile.coq -k Props/Properties_C16.vo (coqc 8.16.1, full .vo) + Print Assumptions',
                    ['Coq 8.16.1 kernel incl. vm_compute', 'harness/gen/crc.py (regex translator of the CRC32C_0..3 initialisers)',
+                    'harness/gen/tables.py (regex translator of raid/tables.c -> Gen/Tables.v, for Props/Properties_C16_tables.v)',
                     'harness/gen/c16_vectors.py (text vectors -> Coq data)',
                     'harness/gen/hashc.py (C-subset translator of murmur3.c / spooky2.c / util_rotl32,64 -> Gen/HashProgs.v; control structure token-recognised; '
                     'a size_t operand of a 32-bit ^= is truncated at the use, justified by C16_hashc_w32_lxor)',
@@ -255,6 +256,26 @@ def main(tier, replay=None):
     for size in (1, 16, 4096, 2 ** 31 - 1):
         add('string_wild', 'getbs %d %d 7f7f7f7f8f4142' % (rng.choice([3, 64, 65536]), size), 'bad')
         add('string_wild', 'getbs %d %d 7f7f7f7fff' % (rng.choice([3, 64, 65536]), size), 'bad')
+
+    # ---------------- parity coefficients ("bit-for-bit stable"): raid/tables.c against the closed forms ----------------
+    # The proof side is Props/Properties_C16_tables.v on the regenerated Gen/Tables.v; this is the search for the
+    # concrete input when it breaks: the differing entry and the one-byte stripe on which the parity changes.
+    try:
+        from check_C02 import table_diff as raid_table_diff
+        rtd = raid_table_diff(snap)
+    except Exception as e:      # an unparsable tables.c is reported by the regeneration / the obligations
+        rtd = []
+        chk.notes.append('raid/tables.c not compared entry by entry: %s' % str(e)[:200])
+    for d in rtd[:20]:
+        how = ''
+        if d['table'] in ('gfcauchy', 'gfvandermonde') and d.get('index'):
+            lvl, disk = d['index']
+            how = (': a stripe of %d data disks whose only non-zero byte is 0x01 on disk %d gets parity level %d byte 0x%02x from this tree '
+                   'and 0x%02x from the reference version' % (disk + 1, disk, lvl + 1, d['source_value'], d['closed_form']))
+        chk.violation('coeff_%s_%s' % (d['table'], '_'.join(map(str, d['index'] or []))),
+                      'C16 parity coefficients are not those of the reference version: raid_%s%s = %s, reference (closed form) %s%s'
+                      % (d['table'], d['index'], d['source_value'], d['closed_form'], how), d)
+    chk.cov['parity_coefficient_entries_compared'] = 65536 + 256 + 256 + 768 + 1536 + 32128 + 8192
 
     # ---------------- CRC ----------------
     td = crc_table_diff(snap)
